@@ -37,6 +37,8 @@ POOL = pd.DataFrame({
     "a_b": [5.0, 6.0, 7.0, 9.0, 2.0],
     # a text column whose NAME contains the interaction operator (its factor prints back-quoted)
     "s:t": pd.Series(["x", "y", "x", "z", "y"], dtype=object),
+    # a text column with missing values (hashed() keeps such rows: they hash like any other value)
+    "H": pd.Series(["x", None, "q", "z", None], dtype=object),
 })
 
 FORMULAS = [
@@ -57,6 +59,7 @@ FORMULAS = [
     # back-quoted names whose python aliases collide with each other / with another column: each keeps its own recorded state
     "center(`a b`) + center(`a+b`)", "center(`a b`) + center(a_b)", "scale(`a+b`):center(`a b`)", "{center(`a b`) - center(`a+b`)}",
     # categorical factors whose expression contains ':' (a column name; a dict literal of custom contrasts)
+    "hashed(H, levels=7) + a", "hashed(H, levels=31):a",
     "`s:t` + a", "a:`s:t`", "C(A, {'p': [1, 0, -1], 'q': [0, 1, -1]}) + a",
     "{center(a) * center(a)}", "I(scale(a) + scale(a))", "{center(a) * center(b)} + center(a)", "{bs(a, df=4)[1] + bs(a, df=4)[2]}",
 ]
